@@ -19,6 +19,6 @@ paras=[p for p in re.split(r'\n\s*\n', s) if '/verif' not in p and 'corresponden
 assert paras[0].startswith('fix:'), paras[0]
 open('/tmp/fixmsg.txt','w').write('\n\n'.join(paras)+'\n')
 PY
-git add -u
+git add -A .
 git commit -q -F /tmp/fixmsg.txt
 git log --oneline | head -1
